@@ -18,6 +18,14 @@ class ToolError(Exception):
     pass
 
 
+class CrashError(Exception):
+    """The code under test crashed the harness process (signal)."""
+    def __init__(self, args, rc):
+        Exception.__init__(self, "fih %s died with signal %d" % (" ".join(args), -rc))
+        self.fih_args = args
+        self.rc = rc
+
+
 def log(*a):
     print("[check]", *a, file=sys.stderr, flush=True)
 
@@ -91,6 +99,8 @@ def build_harness():
 
 def fih(args, timeout=3600):
     p = subprocess.run([FIH] + args, capture_output=True, text=True, timeout=timeout)
+    if p.returncode < 0:
+        raise CrashError(args, p.returncode)
     if p.returncode != 0:
         raise ToolError("fih %s failed (rc %d):\n%s\n%s" % (" ".join(args), p.returncode, p.stdout[-2000:], p.stderr[-4000:]))
     line = p.stdout.strip().splitlines()[-1]
@@ -282,6 +292,7 @@ def run_check(prop_id, tier, seed):
 
     # ---- phase 2: build harness against /repo's working tree, generate tours, replay
     build_harness()
+    crashes = []
     traces = {}   # (prim, constskey) -> list of (header, events, origin)
     def add_trace_file(prim, path, origin):
         for (h, evs) in read_runs(path):
@@ -304,8 +315,28 @@ def run_check(prop_id, tier, seed):
         cfgrec.update({"edges": hdr["edges"], "paths": hdr["paths"], "steps": hdr["steps"], "consts": hdr["consts"]})
         all_clean = True
         def rp(fl):
-            return fl, fih(["replay", "--prim", prim, "--flavour", fl, "--tours", tours,
-                            "--outdir", os.path.join(wd, "rec-" + fl), "--record", "2"])
+            od = os.path.join(wd, "rec-" + fl)
+            try:
+                return fl, fih(["replay", "--prim", prim, "--flavour", fl, "--tours", tours, "--outdir", od, "--record", "2"])
+            except CrashError as ce:
+                # the code under test crashed (e.g. SIGSEGV): attribute it to the path being replayed
+                pid = None
+                try:
+                    pid = int(open(os.path.join(od, "progress.%s.%s" % (prim, fl))).read().strip())
+                except Exception:
+                    pass
+                ops = []
+                if pid is not None:
+                    with open(tours) as f:
+                        for line in f:
+                            if line.startswith('{"kind":"path"'):
+                                d = json.loads(line)
+                                if d["id"] == pid:
+                                    ops = [st[0] for st in d["steps"]]
+                                    break
+                crashes.append({"prim": prim, "flavour": fl, "cfg": c, "path": pid, "signal": -ce.rc, "ops": ops,
+                                "consts": hdr["consts"]})
+                return fl, {"paths": 0, "steps": 0, "drift": [], "samples": [], "crashed": True}
         flavours = cfg_flavours.get(c, info["flavours"])
         with cf.ThreadPoolExecutor(max_workers=len(flavours)) as ex:
             outs = list(ex.map(rp, flavours))
@@ -315,6 +346,10 @@ def run_check(prop_id, tier, seed):
             ev["flavours"].setdefault(prim, [])
             if fl not in ev["flavours"][prim]:
                 ev["flavours"][prim].append(fl)
+            if s.get("crashed"):
+                all_clean = False
+                ev["drift"] = True
+                ev["exhaustive"] = False
             if s["drift"]:
                 all_clean = False
                 ev["drift"] = True
@@ -346,6 +381,23 @@ def run_check(prop_id, tier, seed):
                          "--seed", str(seed + 1000 * i), "--runs", str(rc["runs"]), "--len", str(rc["len"]), "--out", out])
                 ev["random_runs"] += s["runs"]
                 add_trace_file(prim, out, "random %s seed %d" % (fl, seed + 1000 * i))
+
+    # ---- phase 3c: multi-threaded executions under controlled schedules (shuttle), recorded per critical section
+    ev["concurrent_runs"] = 0
+    ev["concurrent_aborted"] = 0
+    for prim in prop["prims"]:
+        info = PRIMS[prim]
+        for i, cc in enumerate(info.get("conc", {}).get(tier, [])):
+            out = os.path.join(work, "conc-%s-%d.ndjson" % (prim, i))
+            args = ["--prim", prim, "--consts", json.dumps(cc["consts"]), "--seed", str(seed + 77 * i),
+                    "--iters", str(cc["iters"]), "--out", out] + (["--pct"] if cc.get("pct") else [])
+            p = subprocess.run([os.path.join(HARNESS, "target", "debug", "fihc")] + args, capture_output=True, text=True, timeout=1800)
+            if p.returncode != 0:
+                raise ToolError("fihc failed: %s\n%s" % (p.stdout[-1000:], p.stderr[-3000:]))
+            s = json.loads(p.stdout.strip().splitlines()[-1])
+            ev["concurrent_runs"] += s["runs"]
+            ev["concurrent_aborted"] += s["aborted"]
+            add_trace_file(prim, out, "threads (shuttle %s) seed %d" % ("pct" if cc.get("pct") else "random", seed + 77 * i))
 
     # ---- phase 3b: regression histories (counterexamples found earlier), executed on the real code
     for prim in prop["prims"]:
@@ -385,6 +437,23 @@ def run_check(prop_id, tier, seed):
             violations.append({"replay": rp, "inv": v["inv"], "prim": prim, "origin": origin,
                                "history": op_summary(cut)[-25:]})
     ev["traces_validated_against_impl"] += ev["paths_replayed"]
+    # a crash of the code under test while replaying a contract-respecting history is a memory-safety
+    # failure: C01's business (the other properties only note it)
+    ev["crashes"] = [{k: c[k] for k in ("prim", "flavour", "cfg", "path", "signal")} for c in crashes]
+    if prop_id == "C01":
+        for c in crashes[:MAX_VIOLATIONS]:
+            nviol += 1
+            rp = os.path.join(REPLAYS, "%s-%d.ndjson" % (prop_id, nviol))
+            with open(rp, "w") as f:
+                f.write(json.dumps({"op": "run_start", "prim": c["prim"], "flavour": c["flavour"], "consts": c["consts"],
+                                    "property": prop_id, "invariant": "crash (signal %d)" % c["signal"],
+                                    "origin": "%s path %s" % (c["cfg"], c["path"])}) + "\n")
+                for o in c["ops"]:
+                    f.write(json.dumps(o) + "\n")
+            violations.append({"replay": rp, "inv": "no-crash", "prim": c["prim"],
+                               "origin": "the code under test crashed the process (signal %d) while replaying %s path %s on flavour %s"
+                                         % (c["signal"], c["cfg"], c["path"], c["flavour"]),
+                               "history": op_summary(c["ops"])[-25:]})
 
     # samples: a few real executions written out
     for (prim, ck), runs in list(traces.items())[:3]:
@@ -430,7 +499,12 @@ def run_replay(prop_id, path):
     shutil.rmtree(work, ignore_errors=True)
     os.makedirs(work)
     out = os.path.join(work, "re-executed.ndjson")
-    fih(["exec", "--ops", path, "--out", out])
+    try:
+        fih(["exec", "--ops", path, "--out", out])
+    except CrashError as ce:
+        print("VIOLATION property=%s replay=%s" % (prop_id, path))
+        print("  the code under test crashed the process (signal %d) while re-executing the history" % -ce.rc)
+        return 1
     runs2 = read_runs(out)
     vs, _ = validate_runs(prim, runs2, prop["invs"][prim], os.path.join(work, "obs"), "replay")
     if vs:
